@@ -96,7 +96,13 @@ func (y *Sys) Close() {
 
 // Bubble runs f in a fresh synctest bubble and converts a panic in the bubble's root goroutine
 // or the bubble's own deadlock detection into an error string.
+// bubbleStartHook is set by overlay builds (new execution epoch for the scheduler shims).
+var bubbleStartHook func()
+
 func Bubble(t *testing.T, f func()) (panicked string) {
+	if bubbleStartHook != nil {
+		bubbleStartHook()
+	}
 	defer func() {
 		if r := recover(); r != nil {
 			panicked = fmt.Sprint(r)
